@@ -72,3 +72,8 @@ check("C02", "exploration",
       "runtime monitor: reference quoter (law: received words = spelled words), reference tokenizer/expander and environment model, compared with what a custom command (args, Getenv) and a real child process (argv, environment) observe; semantic check of ${V@R} against neighbours of the value",
       "Thousands of generated lines: words over all bytes except newline spelled in random equivalent quotings and expansion spellings, env assignment histories with re-assignments and hostile values, raw token soups against the reference tokenizer; executed by the real RunT through a recording T; the helper program is installed by the real testscript.Main.",
       "Trusted: the reference tokenizer in checks/c02 (written from the statement) and Go's regexp package. Unquoted CR may or may not split (both accepted); undocumented $ forms are not generated; @R only for valid UTF-8 values.")
+
+check("C01", "exploration",
+      "runtime monitor: reference model of the documented script language generates scripts state-aware (it knows the first failing line, the lines that run and the resulting tree); the real RunT runs them through a recording T (sentinel-panic and Goexit styles) with probe commands after every line and WorkdirRoot kept for a tree comparison; the real cmd/testscript binary runs the same scripts for the exit status",
+      "Thousands of scripts over the whole documented command set (incl. background jobs, kill/wait, conditions, custom commands and conditions) with a chosen failing line and failure cause, over the Params axes ContinueOnError / RequireExplicitExec / RequireUniqueNames / custom Cmds / custom Condition; verdict, FAIL line numbers (all of them under ContinueOnError), executed-probe list and final file tree are compared with the model; exit status 0 iff no script fails for single files and batches of the standalone command.",
+      "Trusted: the reference model in checks/c01/model.go (written from doc.go) and Go's regexp for pattern truth. Runs as root: permission bits are compared, not enforced. Timing-dependent lines (kill of a job that may have exited; skip/stop with jobs outstanding) are not generated. Params.Deadline (30 s) is set only as a safety net against hanging scripts.")
